@@ -19,6 +19,8 @@ package c19_test
 import (
 	"fmt"
 	"os"
+	"sync"
+	"sync/atomic"
 	"testing"
 	"time"
 
@@ -28,7 +30,7 @@ import (
 func TestVerifC19(t *testing.T) {
 	c := kit.New("C19", "exploration")
 	defer c.Done(t)
-	c.Rule("(a) seeded sequential histories (quick 70-110 operations) over 5 assertion types (validation-set: 2 accounts x 2 names x 6 sequence numbers, formats 0-2; snap-declaration: 4 snap ids incl. one with glob/escape characters, formats 0-6; snap-revision: 3 digests x 3 provenances (optional primary key); account; account-key) with revisions 0-8, 3 content variants per revision, plus assertions of a format above the supported maximum and assertions clashing with 2 trusted and 4 predefined ones (one of them a sequence member); 75% of the operations hit 5-9 focus identities. " +
+	c.Rule("(a) seeded sequential histories (60-100 operations) over 5 assertion types (validation-set: 2 accounts x 2 names x 6 sequence numbers, formats 0-2; snap-declaration: 4 snap ids incl. one with glob/escape characters, formats 0-6; snap-revision: 3 digests x 3 provenances (optional primary key); account; account-key) with revisions 0-8, 3 content variants per revision, plus assertions of a format above the supported maximum and assertions clashing with 2 trusted and 4 predefined ones (one of them a sequence member); 75% of the operations hit 5-9 focus identities. " +
 		"(b) seeded plans of 8 clients x 4-7 operations (Add of revisions 0-4 / formats 0-2 / 2 variants, Find, FindMaxFormat, FindMany, FindSequence) over 1-4 identities, run once per store. " +
 		"Non-trivial (a) = an equal-or-lower revision was refused for an identity that already had a successful add AND a lookup returned an identity that had two or more successful adds; (b) = two Adds for the same identity by different clients overlapped in time. Distinct = distinct operation list (a) / distinct plan + observed order of accepted Adds per store (b)")
 	c.Assume("an assertion's identity is (type, full primary key); 'highest revision successfully added' is per maximum format: a lookup limited to maxFormat returns the highest revision among the successfully added assertions of format <= maxFormat")
@@ -39,42 +41,75 @@ func TestVerifC19(t *testing.T) {
 
 	u := getUniverse()
 	only := kit.OnlyCase()
-	scratch := os.Getenv("VERIF_C19_SCRATCH")
-	if scratch == "" {
-		scratch = os.TempDir()
+	// the filesystem backstore lives under $TMPDIR (the driver's per-shard
+	// scratch on disk) for every 8th history and, when VERIF_C19_FAST_SCRATCH
+	// names a tmpfs, under a private directory there for the others: a binary
+	// built by the driver is not a "go test" binary for osutil, so every
+	// stored assertion is fsynced (file + directory)
+	disk := os.TempDir()
+	fast := disk
+	if f := os.Getenv("VERIF_C19_FAST_SCRATCH"); f != "" {
+		if d, err := os.MkdirTemp(f, "verif-c19-"); err == nil {
+			fast = d
+			defer os.RemoveAll(d)
+		}
 	}
-	c.Note("fs_backstore_scratch", scratch)
+	var onDisk, onFast int64
+	scratchFor := func(idx int) string {
+		if idx%8 == 0 || fast == disk {
+			atomic.AddInt64(&onDisk, 1)
+			return disk
+		}
+		atomic.AddInt64(&onFast, 1)
+		return fast
+	}
+	c.Note("fs_backstore_scratch", map[string]string{"disk": disk, "fast": fast})
 
 	// ---- (a) sequential ----
 	t0 := time.Now()
-	nseq := kit.Scale(260, 1200)
-	var ss seqStats
-	for idx := 0; idx < nseq; idx++ {
-		if only >= 0 && only != idx {
-			continue
-		}
-		r := kit.CaseRand("c19-seq", idx)
-		ops := genSeq(u, r, 70+r.Intn(41))
-		var mm *mismatch
-		var nontrivial bool
-		func() {
-			defer func() {
-				if rec := recover(); rec != nil {
-					mm = &mismatch{sig: "C19:seq:harness-panic", witness: map[string]interface{}{"part": "sequential", "case_index": idx, "ops": ops, "panic": fmt.Sprint(rec)}}
+	nseq := kit.Scale(160, 600)
+	// histories are independent (own databases and model each): a few workers
+	// share them in the quick tier; the verdict does not depend on the count
+	workers := kit.Scale(4, 1)
+	wstats := make([]seqStats, workers)
+	var swg sync.WaitGroup
+	for w := 0; w < workers; w++ {
+		swg.Add(1)
+		go func(w int) {
+			defer swg.Done()
+			for idx := w; idx < nseq; idx += workers {
+				if only >= 0 && only != idx {
+					continue
 				}
-			}()
-			mm, nontrivial = runSeq(u, idx, ops, scratch, &ss)
-		}()
-		c.Eval()
-		if nontrivial {
-			c.Nontrivial(kit.Sig("seq", kit.JSON(ops)))
-		}
-		if idx == 0 {
-			c.Sample(map[string]interface{}{"part": "sequential", "case_index": idx, "ops(first 25; res = what the model expected)": ops[:25]})
-		}
-		if mm != nil {
-			c.Violation(mm.sig, mm.witness)
-		}
+				r := kit.CaseRand("c19-seq", idx)
+				ops := genSeq(u, r, 60+r.Intn(41))
+				var mm *mismatch
+				var nontrivial bool
+				func() {
+					defer func() {
+						if rec := recover(); rec != nil {
+							mm = &mismatch{sig: "C19:seq:harness-panic", witness: map[string]interface{}{"part": "sequential", "case_index": idx, "ops": ops, "panic": fmt.Sprint(rec)}}
+						}
+					}()
+					mm, nontrivial = runSeq(u, idx, ops, scratchFor(idx), &wstats[w])
+				}()
+				c.Eval()
+				if nontrivial {
+					c.Nontrivial(kit.Sig("seq", kit.JSON(ops)))
+				}
+				if idx == 0 {
+					c.Sample(map[string]interface{}{"part": "sequential", "case_index": idx, "ops(first 25; res = what the model expected)": ops[:25]})
+				}
+				if mm != nil {
+					c.Violation(mm.sig, mm.witness)
+				}
+			}
+		}(w)
+	}
+	swg.Wait()
+	var ss seqStats
+	for _, x := range wstats {
+		ss.merge(x)
 	}
 	c.Note("wall_sequential_part_s", time.Since(t0).Seconds())
 	c.Count("seq_histories", nseq)
@@ -113,7 +148,7 @@ func TestVerifC19(t *testing.T) {
 
 	// ---- (b) concurrent ----
 	t1 := time.Now()
-	nconc := kit.Scale(120, 600)
+	nconc := kit.Scale(100, 400)
 	cs := map[string]*concStats{"memory": {}, "filesystem": {}}
 	for idx := 0; idx < nconc; idx++ {
 		if only >= 0 && only != 1000000+idx {
@@ -121,7 +156,7 @@ func TestVerifC19(t *testing.T) {
 		}
 		r := kit.CaseRand("c19-conc", idx)
 		p := genConc(u, r)
-		mms, nontrivial, orderSig, inc := runConc(u, idx, p, scratch, cs)
+		mms, nontrivial, orderSig, inc := runConc(u, idx, p, scratchFor(idx), cs)
 		c.Eval()
 		if nontrivial {
 			c.Nontrivial(kit.Sig("conc", kit.JSON(p), orderSig))
@@ -151,6 +186,8 @@ func TestVerifC19(t *testing.T) {
 		c.Count("conc_"+name+"_overlapping_add_pairs_one_refused", s.racedRefusals)
 	}
 	c.Count("assertions_signed", u.signedCount)
+	c.Count("histories_with_fs_backstore_on_disk", int(onDisk))
+	c.Count("histories_with_fs_backstore_on_tmpfs", int(onFast))
 
 	if only < 0 {
 		c.Floor("seq_adds_accepted", int64(nseq*5))
